@@ -337,9 +337,17 @@ impl<F: Write + Seek> MiniAllocator<F> {
             };
 
         // Update length of mini stream in root directory entry.
+        let Some(new_mini_stream_len) =
+            mini_stream_len.checked_add(consts::MINI_SECTOR_LEN as u64)
+        else {
+            invalid_data!(
+                "Mini stream length {} cannot grow any further",
+                mini_stream_len
+            );
+        };
         self.directory.with_root_dir_entry_mut(|dir_entry| {
             dir_entry.start_sector = new_start_sector;
-            dir_entry.stream_len += consts::MINI_SECTOR_LEN as u64;
+            dir_entry.stream_len = new_mini_stream_len;
         })
     }
 
